@@ -16,6 +16,17 @@ CLAIMS = {
         "facts proved by CBMC code contracts (back end A, goto-instrument --dfcc --enforce-contract).",
    note=NOTE_COMMON + "Undecided remainder (not claimed): IEEE rounding inside each branch, f_PS/f_S/F1..F3 accuracy vs definition beyond the listed obligations, complex dilog.",
    technique="code contracts on extracted real functions: WP/SMT (z3 NRA) + CBMC DFCC contracts", design='5 C01'),
+ 'C02': dict(
+   text="Contracts on the real multi-variable loop functions: sort's contract (ascending permutation); SYMMETRY of Fa, Fb, FPZ, FSZ, FCWl, Iabc, Phi under every rearrangement and tie "
+        "pattern of the arguments (relational symbolic execution through the real sort: same feasible paths, equivalent path conditions, identical result terms) and of the Kaellen function; "
+        "HOMOGENEITY of Iabc (degree -2) and Phi (degree 1); DEFINITION on every generic path as a ring identity (Fa/Fb vs G3/G4, Ixyz vs I2abc, the Barr-Zee difference quotients, "
+        "phi_pos/phi_neg/Phi vs Davydychev-Tausk as in 1607.06292 (68)-(70) through a chain of callee contracts); every near-degenerate EXPANSION (Fa11, Fb11, Fax, Fbx, I0y, I1y, Ixx, l00, "
+        "l0v, lv0, the u==v series) has exactly the Taylor coefficients of the definition to the documented order, so limits are approached continuously; documented values at equal, "
+        "1/4 and zero arguments.  BOUNDED stand-in (not a proof): size of the neglected remainders/cancellation on a deterministic sweep of the compiled functions against the 130-digit definition.",
+   note=NOTE_COMMON + "Truncation remainders and floating-point cancellation are only covered by the bounded sweep (labelled bounded; ~25000 tuples).  FCWu/FCWd/f_CSu/f_CSd: only the generic "
+        "difference quotient is under contract (f_CS* uninterpreted).  phi_neg's special branches (u==v, u==1) and the inversion identities of Phi are used as documented (A-SPECFN), checked only by the sweep. "
+        "One open finding (FCWl for arguments >= 1e4), two fixed (Fa/Fb small arguments, Phi small-u expansion).",
+   technique="relational symbolic execution + ring normalisation against transcribed definitions; Taylor-coefficient contracts via sympy series of the definition; bounded native sweep for remainders", design='5 C02'),
  'C03': dict(
    text="Contracts on the real one-loop kernels: amu1LChi0 and amu1LChipm (with n^L, n^R, c^L, c^R, A/B combinations, x_im, x_k executed) equal the published neutralino/chargino "
         "formulas written independently in the standard hep-ph/0609168 form, for ALL values of the reported masses, complex neutralino mixing, real smuon/chargino mixings, gauge and Yukawa "
